@@ -25,9 +25,15 @@ TAG_POOL = ["Painted", "Target", "Primary", "X", "W1", "HAP1", "Hap1", "HAP2", "
             "", "I_II", "2RL", "Contaminant"]
 
 
-def run_sub(args, cwd, seed):
+def run_sub(args, cwd, seed, buffer_size=None):
     env = {"PYTHONPATH": str(core.REPO / "src"), "PYTHONHASHSEED": str(seed), "PATH": os.environ.get("PATH", "")}
-    r = subprocess.run([sys.executable, "-m", "tola.assembly.scripts.pretext_to_asm"] + [str(a) for a in args],
+    if buffer_size is None:
+        launch = ["-m", "tola.assembly.scripts.pretext_to_asm"]
+    else:
+        # the command has no option for it: the same program with another default FastaIndex buffer size
+        launch = ["-c", "import tola.fasta.index as I; I.FastaIndex.__init__.__defaults__ = (%d,); "
+                        "from tola.assembly.scripts.pretext_to_asm import cli; cli()" % buffer_size]
+    r = subprocess.run([sys.executable] + launch + [str(a) for a in args],
                        cwd=cwd, env=env, capture_output=True, text=True, timeout=120)
     return r.returncode, r.stderr
 
@@ -184,7 +190,7 @@ class C17(Prop):
         res = {}
         strip = [str(root)]
 
-        def variant(name, seed, cwd_rel, infile, outname, keep_cache):
+        def variant(name, seed, cwd_rel, infile, outname, keep_cache, buffer_size=None):
             od = root / name
             od.mkdir(parents=True)
             if not keep_cache:
@@ -198,12 +204,14 @@ class C17(Prop):
             else:
                 args = ["-a", ind / infile, "-p", ind / "in.pretext.agp", "-o", od / outname]
                 cwd = root
-            rc, err = run_sub(args, cwd, seed)
+            rc, err = run_sub(args, cwd, seed, buffer_size)
             return rc, read_outputs(od, strip + [str(od)])
 
         # sequential where the cache state matters
         res["base"] = variant("base", 0, False, "in.fa", "x.fa", False)
         res["warm"] = variant("warm", 0, False, "in.fa", "x.fa", True)
+        # other stream / index buffer sizes: index rebuilt with a small buffer, then streamed with two more
+        res["bufcold"] = variant("bufcold", 0, False, "in.fa", "x.fa", False, buffer_size=case.get("buf", 97))
         with ThreadPoolExecutor(max_workers=6) as ex:
             futs = {
                 "seed24": ex.submit(variant, "seed24", 24, False, "in.fa", "x.fa", True),
@@ -211,6 +219,8 @@ class C17(Prop):
                 "seed7": ex.submit(variant, "seed7", 7, False, "in.fa", "x.fa", True),
                 "seed101": ex.submit(variant, "seed101", 101, False, "in.fa", "x.fa", True),
                 "relcwd": ex.submit(variant, "relcwd", 0, True, "in.fa", "x.fa", True),
+                "buf7": ex.submit(variant, "buf7", 0, False, "in.fa", "x.fa", True, 7),
+                "buf200": ex.submit(variant, "buf200", 0, False, "in.fa", "x.fa", True, 200),
                 "fa2agp": ex.submit(variant, "fa2agp", 0, False, "in.fa", "x.agp", True),
             }
             for k, f in futs.items():
@@ -290,7 +300,7 @@ class C17(Prop):
                     return f"remapping the same inputs again in the same process (run {k + 2}) gave a different result"
             return None
         base = obs["base"]
-        same_as_base = ["warm", "seed24", "seed3", "seed7", "seed101", "relcwd", "inproc"]
+        same_as_base = ["warm", "bufcold", "buf7", "buf200", "seed24", "seed3", "seed7", "seed101", "relcwd", "inproc"]
         for k in same_as_base:
             v = obs[k]
             if v["rc"] != base["rc"]:
